@@ -207,11 +207,13 @@ func bootFrom(cs *CrashState) func(x *Exec) error {
 			return err
 		}
 		objs := map[string]any{}
+		var built []*workflow.Plan
 		for pi := range x.Sc.Plans {
 			p := x.buildPlan(pi)
 			if _, err := tmp.Submit(x.Ctx, p); err != nil {
 				return fmt.Errorf("boot submit: %w", err)
 			}
+			built = append(built, p)
 			x.registerPlan(pi, p)
 			for k, v := range planObjects(p) {
 				objs[k] = v
@@ -225,9 +227,28 @@ func bootFrom(cs *CrashState) func(x *Exec) error {
 		// the restart happens after the crash instant
 		time.Sleep(time.Duration(cs.Clock+1+int64(x.Sc.CrashAgeSec)) * time.Second)
 		x.Mem["restartAt"] = time.Now()
+		// The monitors' picture of what was durable at the crash is the harness's own record of the writes (applied to the
+		// objects above), not what the store's reader makes of it: the reader is code under test. Where the two disagree
+		// on status or attempts the restarted engine is misinformed, which is reported with the first monitor call.
 		for pi := range x.Sc.Plans {
+			model := View(built[pi])
+			x.Mem[fmt.Sprintf("crashView:%d", pi)] = model
 			if p, err := x.ReadPlan(pi); err == nil {
-				x.Mem[fmt.Sprintf("crashView:%d", pi)] = View(p)
+				got := View(p)
+				for _, path := range model.Order {
+					m, g := model.Objs[path], got.Objs[path]
+					if g == nil {
+						continue
+					}
+					same := m.Status == g.Status && len(m.Att) == len(g.Att)
+					for i := 0; same && i < len(m.Att); i++ {
+						same = m.Att[i].HasErr == g.Att[i].HasErr && m.Att[i].HasResp == g.Att[i].HasResp
+					}
+					if !same {
+						x.Mem["crashReadMismatch"] = fmt.Sprintf("%s was written as %s with %d attempts, the store reads it back as %s with %d attempts", path, m.Status, len(m.Att), g.Status, len(g.Att))
+						break
+					}
+				}
 			}
 		}
 		x.Mem["crashState"] = cs
